@@ -12,6 +12,8 @@ func init() {
 			ruleJSONDispatch(c)
 			ruleTightGuards(c, decodeBound(c.P), func(n string) bool { return strings.Contains(n, "JSON") })
 			c.Floor("X.tightguard", 8)
+			ruleRejects(c, decodeBound(c.P), func(n string) bool { return strings.Contains(n, "JSON") })
+			c.Floor("X.rejects", 8)
 		},
 	})
 }
